@@ -2,7 +2,7 @@
 C09 — the region of known finding C09-stringize-backslash-outside-literal is exact at the `#` operator:
 `quote_string(join_tokens(arg))` is the string of C11 6.10.3.2p2 **iff** every token of the argument is literal-safe
 (`strSafeTok`: a string literal, a character constant, or a token without `\` and `"`).  The "if" is
-`stringize_eq_spec` (Lemmas/PPSubst.lean); this file proves the "only if": one unsafe token makes chibicc's string
+`stringize_eq_spec` (Lemmas/PPSubst.lean); this file proves the "only if": one token that is not literal-safe makes chibicc's string
 strictly longer than the standard's (every `\`/`"` outside a literal is doubled, nothing ever gets shorter).
 -/
 import ChibiVerif.Model.PP
